@@ -91,3 +91,26 @@ Theorem C14_mismatch_not_listed_partial :
     In feat (tfb w t) -> Justified w t feat.
 Proof. exact mismatch_not_listed_partial. Qed.
 Print Assumptions C14_mismatch_not_listed_partial.
+
+(* ds[feat] returns data only for features that `feat in ds` reports. *)
+Theorem C14_served_is_contained :
+  forall (w : world) (fuel : nat) (fm : fmt) (i : nat) (ign : list Z)
+         (t : tree) (feat s : Z),
+    build w fuel fm i ign = Some t ->
+    tget w t feat = Some s -> tcontains w t feat = true.
+Proof. exact served_is_contained. Qed.
+Print Assumptions C14_served_is_contained.
+
+(* The cycle cut: no basin whose key is ignored is instantiated at any
+   depth, every instantiated basin passes all keys ignored so far plus its
+   own key to the dataset behind it. *)
+Theorem C14_ignored_never_followed :
+  forall (w : world) (fuel : nat) (fm : fmt) (i : nat) (ign : list Z)
+         (t : tree),
+    build w fuel fm i ign = Some t ->
+    Forall (fun rb => memz (b_key (rb_b rb)) ign = false
+                      /\ (forall k, In k ign -> In k (rb_ign rb))
+                      /\ In (b_key (rb_b rb)) (rb_ign rb))
+           (tree_edges t).
+Proof. exact ignored_never_followed. Qed.
+Print Assumptions C14_ignored_never_followed.
